@@ -34,9 +34,14 @@ FORBIDDEN = re.compile(
 
 
 class Lock:
+    """Exclusive around anything that writes the shared Coq tree (generation, make); shared
+    (shared=True) around scratch compilations in build/ that only read compiled files."""
+    def __init__(self, shared=False):
+        self.shared = shared
+
     def __enter__(self):
-        self.f = open(os.path.join(BUILD, '.lock'), 'w')
-        fcntl.flock(self.f, fcntl.LOCK_EX)
+        self.f = open(os.path.join(BUILD, '.lock'), 'a')
+        fcntl.flock(self.f, fcntl.LOCK_SH if self.shared else fcntl.LOCK_EX)
         return self
 
     def __exit__(self, *a):
@@ -114,7 +119,7 @@ def coq_make(targets, timeout=1500, jobs=8):
 
 def coqc_file(path, timeout=600):
     """Compile one scratch file of build/ (cases, interval goals, Print Assumptions)."""
-    with Lock():
+    with Lock(shared=True):
         p = subprocess.run(['timeout', str(timeout), 'coqc'] + COQ_FLAGS + ['-Q', BUILD, 'ND.build', path], cwd=COQ,
                            stdout=subprocess.PIPE, stderr=subprocess.STDOUT, text=True)
     return p.returncode == 0, p.stdout
@@ -358,7 +363,7 @@ class Check:
             p = subprocess.run(['timeout', str(timeout), 'coqc'] + COQ_FLAGS + [path], cwd=COQ,
                                stdout=subprocess.PIPE, stderr=subprocess.STDOUT, text=True)
             return p.returncode, p.stdout
-        with Lock():
+        with Lock(shared=True):
             with concurrent.futures.ThreadPoolExecutor(max_workers=8) as ex:
                 outs = list(ex.map(run, paths))
         for sh, (rc, out) in zip(shards, outs):
